@@ -209,8 +209,11 @@ func init() {
 				durs = append(durs, math.MaxInt64-origin+1)
 			}
 			for _, kind := range []string{"creating", "writing", "accessing", "custom"} {
-				for _, ref := range []string{"", "writing"} {
-					if !thorough && ref != "" && kind != "writing" && kind != "custom" {
+				for _, ref := range []string{"", "writing", "creating"} {
+					if !thorough && ref == "writing" && kind != "writing" && kind != "custom" {
+						continue
+					}
+					if ref == "creating" && kind != "writing" && !(thorough && kind == "creating") {
 						continue
 					}
 					cfg := CacheCfg{Expiry: kind, TTL: 1000, Refresh: ref, ClockStart: origin}
@@ -343,7 +346,7 @@ func init() {
 	// ---- C11: refresh (sequential part) ----
 	plans["C11"] = func(thorough bool) []*Job {
 		var jobs []*Job
-		kinds := []string{"result-mismatch", "loader-calls", "refresh-deadline-mismatch", "deadline-mismatch", "refresh-channel", "phantom-value", "missing-entry", "wrong-cause", "unexpected-removal", "event-missing"}
+		kinds := []string{"result-mismatch", "loader-calls", "refresh-deadline-mismatch", "deadline-mismatch", "refresh-channel", "phantom-value", "missing-entry", "wrong-cause", "unexpected-removal", "event-missing", "hook-mismatch"}
 		for _, ref := range []string{"creating", "writing"} {
 			for _, exp := range []string{"", "writing"} {
 				for _, ex := range []string{"caller", "deferred"} {
